@@ -34,6 +34,72 @@ enum Owner {
     Other,
 }
 
+/// Source locations of the record store's spawn calls whose task parks at a gate of its own (file write, file
+/// delete): learned once per process by a calibration run on a thread of its own. A task spawned anywhere else
+/// carries no gate; with `set_gate_spawns` it parks at the generic gate and the simulator schedules it like any
+/// other background task (it may run late, out of order, or never - crash).
+static KNOWN_SPAWNS: std::sync::OnceLock<BTreeSet<String>> = std::sync::OnceLock::new();
+
+fn known_spawns() -> &'static BTreeSet<String> {
+    KNOWN_SPAWNS.get_or_init(|| {
+        match simkit::rt::on_fresh_thread(0xCA11B, || simkit::rt::block_on(0xCA11B, calibrate_spawns())) {
+            simkit::rt::ThreadOutcome::Done(s) => s,
+            simkit::rt::ThreadOutcome::Panicked(m) => panic!("spawn calibration failed: {m}"),
+        }
+    })
+}
+
+async fn calibrate_spawns() -> BTreeSet<String> {
+    let root = PathBuf::from(format!("/dev/shm/antsim/{}/store-calibration", std::process::id()));
+    let _ = std::fs::remove_dir_all(&root);
+    std::fs::create_dir_all(&root).expect("calibration dir");
+    hooks::gates_install();
+    hooks::set_gate_spawns(true);
+    let mut b = NetworkBuilder::new(Keypair::generate_ed25519(), true);
+    b.listen_addr("127.0.0.1:0".parse().unwrap());
+    let (_network, _events, mut driver) = b.verif_build_node(root.clone(), None, None).expect("verif_build_node");
+    let key = RecordKey::new(&vec![0x5au8; 32]);
+    let value = try_serialize_record(&vec![1u8, 2, 3], RecordKind::Chunk).expect("serialize").to_vec();
+    let record = Record { key: key.clone(), value, publisher: None, expires: None };
+    let mut known = BTreeSet::new();
+    async fn pass(known: &mut BTreeSet<String>, site: &str) {
+        for g in hooks::gates_pending() {
+            if g.site == "spawn" {
+                hooks::gate_open(g.id);
+                settle().await;
+                if hooks::gates_pending().iter().any(|x| x.site == site) {
+                    known.insert(g.detail.clone());
+                }
+            }
+        }
+    }
+    let _ = driver.verif_handle_local_cmd(LocalSwarmCmd::PutLocalRecord { record });
+    settle().await;
+    pass(&mut known, "store.write").await;
+    for _ in 0..8 {
+        for g in hooks::gates_pending() {
+            hooks::gate_open(g.id);
+        }
+        settle().await;
+        while let Some(cmd) = driver.verif_try_recv_local_cmd() {
+            let _ = driver.verif_handle_local_cmd(cmd);
+        }
+    }
+    driver.verif_store_mut().remove(&key);
+    settle().await;
+    pass(&mut known, "store.delete").await;
+    for g in hooks::gates_pending() {
+        hooks::gate_open(g.id);
+    }
+    settle().await;
+    hooks::set_gate_spawns(false);
+    hooks::gates_uninstall();
+    drop(driver);
+    let _ = std::fs::remove_dir_all(&root);
+    assert!(known.len() >= 2, "spawn calibration found {known:?}");
+    known
+}
+
 struct Live {
     driver: SwarmDriver,
     #[allow(dead_code)]
@@ -227,6 +293,8 @@ impl<'a> World<'a> {
     fn build(&mut self) {
         let mut b = NetworkBuilder::new(self.keypair.clone(), true);
         b.listen_addr("127.0.0.1:0".parse().unwrap());
+        let _ = known_spawns();
+        hooks::set_gate_spawns(true);
         hooks::set_local_cmd_channel_size(if self.plan.chan > 0 { Some(self.plan.chan) } else { None });
         let (network, events, driver) = b
             .verif_build_node(self.root.clone(), Some(self.plan.capacity), Some(self.plan.cache))
@@ -254,6 +322,22 @@ impl<'a> World<'a> {
         s.replace(self.root.to_str().unwrap_or(""), "<root>")
     }
 
+    /// settle, and let every task spawned at a known site pass the generic gate (it parks at its own gate next)
+    async fn settle_s(&mut self) {
+        settle().await;
+        loop {
+            let known = known_spawns();
+            let ids: Vec<u64> = hooks::gates_pending().into_iter().filter(|g| g.site == "spawn" && known.contains(&g.detail)).map(|g| g.id).collect();
+            if ids.is_empty() {
+                break;
+            }
+            for id in ids {
+                hooks::gate_open(id);
+            }
+            settle().await;
+        }
+    }
+
     /// Attribute newly registered gates. `cause`: the key whose operation/task was just executed.
     fn absorb(&mut self, cause: Owner) -> Vec<GateInfo> {
         let mut fresh = vec![];
@@ -278,6 +362,11 @@ impl<'a> World<'a> {
                         Some(i) => Owner::Key(*i),
                         None => Owner::Other,
                     }
+                }
+                "spawn" => {
+                    // a background task the store spawned somewhere else than at its known sites
+                    self.rep.probe("unknown_spawned_task_parked");
+                    Owner::Other
                 }
                 "store.metrics_flush" => {
                     self.flush_counts.insert(g.id, self.payments);
@@ -322,7 +411,7 @@ impl<'a> World<'a> {
     async fn drain(&mut self, cause: Owner) {
         if self.stalled {
             // a stalled driver handles nothing; senders block once its command channel is full
-            settle().await;
+            self.settle_s().await;
             let fresh = self.absorb(cause);
             self.note_store_gates(&fresh);
             return;
@@ -357,7 +446,7 @@ impl<'a> World<'a> {
             let res = self.driver().verif_handle_local_cmd(cmd);
             self.rep
                 .log(format!("  handled {} -> {}", text, if res.is_ok() { "ok" } else { "err" }));
-            settle().await;
+            self.settle_s().await;
             let fresh = self.absorb(cause);
             self.note_store_gates(&fresh);
         }
@@ -400,7 +489,7 @@ impl<'a> World<'a> {
             self.rep.harness_error = Some(format!("gate {} vanished", g.id));
             return;
         }
-        settle().await;
+        self.settle_s().await;
         let mut torn_target: Option<(usize, u32)> = None;
         match (g.site, owner) {
             ("store.write", Owner::Key(i)) => {
@@ -966,7 +1055,7 @@ impl<'a> World<'a> {
         self.build();
         let stamp_after = std::fs::metadata(&version_file).and_then(|m| m.modified()).ok();
         let startup_rewrote_version_file = stamp_before.is_some() && stamp_after != stamp_before;
-        settle().await;
+        self.settle_s().await;
         let _ = self.absorb(Owner::Other);
         // restart oracle
         for key in 0..self.keys.len() {
@@ -1073,7 +1162,7 @@ impl<'a> World<'a> {
         let _guard = RunDir(self.root.clone());
         hooks::gates_install();
         self.build();
-        settle().await;
+        self.settle_s().await;
         let _ = self.absorb(Owner::Other);
         self.start_time = Some(self.node_store().verif_start_time());
         self.rep.log(format!(
@@ -1138,7 +1227,7 @@ impl<'a> World<'a> {
         let res = self
             .driver()
             .verif_handle_local_cmd(LocalSwarmCmd::PutLocalRecord { record });
-        settle().await;
+        self.settle_s().await;
         let fresh = self.absorb(Owner::Key(key));
         let wrote = fresh
             .iter()
@@ -1292,7 +1381,7 @@ impl<'a> World<'a> {
                 let rk = self.rkeys[key].clone();
                 self.keys[key].refused_val = None;
                 self.driver().verif_store_mut().remove(&rk);
-                settle().await;
+                self.settle_s().await;
                 let fresh = self.absorb(Owner::Key(key));
                 self.note_store_gates(&fresh);
                 if !self.keys[key].pending_writes.is_empty() || self.unacked[key] > 0 {
@@ -1381,7 +1470,7 @@ impl<'a> World<'a> {
                 let _ = self
                     .driver()
                     .verif_handle_local_cmd(LocalSwarmCmd::TriggerIrrelevantRecordCleanup);
-                settle().await;
+                self.settle_s().await;
                 let fresh = self.absorb(Owner::Other);
                 self.note_store_gates(&fresh);
                 let removed: BTreeSet<usize> = fresh
@@ -1422,7 +1511,7 @@ impl<'a> World<'a> {
             Step::Payment => {
                 self.payments += 1;
                 let _ = self.driver().verif_handle_local_cmd(LocalSwarmCmd::PaymentReceived);
-                settle().await;
+                self.settle_s().await;
                 let _ = self.absorb(Owner::Other);
                 self.rep.ops += 1;
                 self.rep.log("payment received");
@@ -1470,7 +1559,7 @@ impl<'a> World<'a> {
                                 // run the write, then keep only a prefix of what it wrote
                                 let val = self.gate_val.get(&g.id).copied().or(self.keys[i].pending_writes.front().copied());
                                 hooks::gate_open(g.id);
-                                settle().await;
+                                self.settle_s().await;
                                 let _ = self.absorb(Owner::Key(i));
                                 let p = self.store_dir().join(hex::encode(&self.keys[i].bytes));
                                 if let (Ok(full), Some(v)) = (std::fs::read(&p), val) {
